@@ -11,6 +11,8 @@ is the SafeCuts of DESIGN §5 (C03) evaluated where the code evaluates it.
 -/
 import RioModel.Props.C03
 import RioModel.Proofs.HtmlStream6
+import RioModel.Proofs.FilterNoFail
+import RioModel.Props.C04
 set_option linter.unusedSimpArgs false
 set_option linter.unusedVariables false
 
@@ -125,6 +127,43 @@ theorem chain_chunk_invariant_syntactic (ev : Bytes → Bytes → Bool) (codec :
       ({ items := items } : Chain D E).run htmlTokenize ev codec [cs.flatten] :=
   chain_chunk_invariant_partial htmlTokenize ev codec items hp cs hne
     (safeG_of_syn ev codec items cs none hsafe) (safeG_of_syn ev codec items [cs.flatten] none hsafe1) hok hok1
+
+/-- on a valid UTF-8 body no call of a plain chain with valid values fails, however the body is cut -/
+theorem no_call_fails (ev : Bytes → Bytes → Bool) (codec : Codec D E) (items : List (Stage D E)) (hd : Down items)
+    (cs : List Bytes) (hv : V cs.flatten) : runG htmlTokenize ev codec items cs none ≠ none := by
+  obtain ⟨out, h, _⟩ := runG_ok htmlTokenize_lossless htmlTokenize_tokValid ev codec items cs none hd (by simpa using hv)
+  rw [h]; simp
+
+/-- **C03, the DESIGN statement on the tokenizer model.**  For the chain `FilterBodyAction::new` builds from any list
+of html and text filters whose values are valid UTF-8 (no `Content-Encoding`), every valid UTF-8 body and every way of
+cutting it into a non-empty list of chunks (empty chunks and cuts inside multi-byte characters included): if every cut
+is syntactically safe — for each html stage, at each cut between the pieces it receives, the buffer the tokenizer sees
+does not end inside a comment / doctype / `<!…>` / `<?…>` / CDATA token cut by EOF nor in a raw-text zone
+(`synSafeGB`, in the run on the schedule and in the single-chunk run) — the concatenated output is byte-identical to
+the output for the body delivered as one chunk.  No other hypothesis. -/
+theorem chunk_invariant_final (ev : Bytes → Bytes → Bool) (lower : String → String)
+    (fs : List BodyFilter) (headers : List (String × String))
+    (henc : headerValue lower Rio.Consts.filterHeaderContentEncoding headers = none)
+    (hval : ∀ f ∈ fs, V (Rio.C04.filterValue f))
+    (cs : List Bytes) (hne : cs ≠ []) (hbody : V cs.flatten)
+    (hsafe : synSafeGB ev noCodec (Chain.new noCodec lower fs headers).items cs none = true)
+    (hsafe1 : synSafeGB ev noCodec (Chain.new noCodec lower fs headers).items [cs.flatten] none = true) :
+    (Chain.new noCodec lower fs headers).run htmlTokenize ev noCodec cs =
+      (Chain.new noCodec lower fs headers).run htmlTokenize ev noCodec [cs.flatten] := by
+  rw [Rio.C04.new_plain noCodec lower fs headers henc] at hsafe hsafe1 ⊢
+  generalize headerValue lower Rio.Consts.filterHeaderContentType headers = ct at hsafe hsafe1 ⊢
+  have hdown : Down (fs.filterMap fun f => (Stage.new f ct : Option (Stage Unit Unit))) := by
+    intro st hst
+    simp only [List.mem_filterMap] at hst
+    obtain ⟨f, hf, hnew⟩ := hst
+    exact Rio.C04.stage_new_down f ct st (hval f hf) hnew
+  have hplain : AllPlain (fs.filterMap fun f => (Stage.new f ct : Option (Stage Unit Unit))) := by
+    intro st hst
+    have := hdown st hst
+    cases st <;> simp_all [DStage, isPlain]
+  exact chain_chunk_invariant_syntactic ev noCodec _ hplain cs hne hsafe hsafe1
+    (no_call_fails ev noCodec _ hdown cs hbody)
+    (no_call_fails ev noCodec _ hdown [cs.flatten] (by simpa using hbody))
 
 /-- non-vacuity: the schedule of `safe_example` (cuts inside a start tag, plain text, an end tag) is syntactically
 safe; the D4 witness is not -/
